@@ -83,6 +83,7 @@ func ReleaseIncludeNode(node *IncludeNode) {
 	}
 	node.template = nil
 	node.variables = nil
+	node.variableOrder = nil
 	node.ignoreMissing = false
 	node.only = false
 	node.sandboxed = false
